@@ -8,6 +8,7 @@ mod semaphore;
 mod mpmc;
 mod oneshot;
 mod state;
+mod timer;
 
 use crate::core::*;
 use std::io::{BufRead, Write};
@@ -39,6 +40,8 @@ fn make(prim: &str, flavour: &str, cfg: &[u64]) -> Option<Box<dyn Exec>> {
         ("state", "local") => Box::new(state::BorrowedState::<Local>::new(cfg)),
         ("state", "sync") => Box::new(state::BorrowedState::<Sync>::new(cfg)),
         ("state", "shared") => Box::new(state::SharedState::<Sync>::new(cfg)),
+        ("timer", "local") => Box::new(timer::LocalTimerExec::<Local>::new(cfg)),
+        ("timer", "sync") => Box::new(timer::SyncTimerExec::<Sync>::new(cfg)),
         _ => return None,
     })
 }
